@@ -425,6 +425,22 @@ pub fn run(tier: Tier, seed: u64) -> i32 {
             }
         }
         // no digit position is a copy of ANOTHER position under every script (block-wise generation that re-uses a block)
+        // over all positions and scripts of a card with at least 400 generated digits, each of the ten digit values occurs
+        // (a legitimate generator misses one with probability 10 * 0.9^400 < 1e-17; a generator whose range lost its top or
+        // bottom value - digits 0..=8, 1..=9 - never produces it)
+        {
+            let mut hist = [0u64; 256];
+            for c in &prev {
+                for d in c {
+                    hist[*d as usize] += 1;
+                }
+            }
+            let total: u64 = hist.iter().sum();
+            let missing: Vec<usize> = (0..10).filter(|v| hist[*v] == 0).collect();
+            if total >= 400 && !missing.is_empty() {
+                viol(&report, "matrix card digits", "digit-value-never-generated", json!({"w": w, "h": h, "d": d, "digits_generated": total, "never_seen": missing}), format!("over {total} generated card digits the value(s) {missing:?} never occur"));
+            }
+        }
         if cells >= 2 && prev.len() >= 8 {
             // signature of a position = its digits over all scripts; equal signatures = one is a copy of the other
             let mut sigs: std::collections::HashMap<Vec<u8>, usize> = Default::default();
